@@ -81,22 +81,9 @@ Class Policy : Type :=
 Definition it_of (E : ty) : ty := TFun [] (TTup [TBool; E]).
 (* the element type ReturnType computes for an iterator type (`.unwrap_or(!)`) *)
 Definition ielem (T : ty) : ty := match iter_element T with Some e => e | None => TNever end.
-Definition IT_INT : ty := it_of TInt.
-Definition IT_FLOAT : ty := it_of TFloat.
-Definition IT_STRING : ty := it_of TString.
-(* `$+` picks its reducer (int, float, string) by the run-time tag of the iterator AMONG the
-   iterator types the static type T of the operand allows (IT_c matches T).  The rule asks
-   that T is covered by the iterator types it allows, and that the result type R contains
-   the sum type of each of them.  A static element type `!` (`[]~ $+`) allows none: there
-   the implementation falls back to the run-time tag alone and yields 0 at type `!`. *)
-Definition adm_join (T : ty) (cs : list ty) : ty := join_all (filter (fun c => matches c T) cs).
-Definition kinds_ok (T R : ty) (cks : list (ty * ty)) : bool :=
-  forallb (fun ck => implb (matches (fst ck) T) (matches (snd ck) R)) cks.
-Definition sum_ok (T R : ty) : bool :=
-  matches T (adm_join T [IT_INT; IT_FLOAT; IT_STRING]) &&
-  kinds_ok T R [(IT_INT, TInt); (IT_FLOAT, TFloat); (IT_STRING, TString)].
-Definition prod_ok (T R : ty) : bool :=
-  matches T (adm_join T [IT_INT; IT_FLOAT]) && kinds_ok T R [(IT_INT, TInt); (IT_FLOAT, TFloat)].
+(* `$+`, `$*` are not instructions of a checked program any more: the checker plants the
+   reducer call chosen by the STATIC type of the operand (Check.plant_reducer), a plain call
+   (T_Call), or a `match` over the iterator types the static type allows (T_Match). *)
 
 (* the policy without closure creation and without iterator operators: it accepts the
    reserved key only (see [iter_gate] below) *)
@@ -109,8 +96,8 @@ Context {FL : Policy}.
    policy REJECTS a reserved key (a "literal" named by the empty name, holding the operation,
    with the ill-formed result type `TMulti []` that no closure rule can carry).  A policy that
    accepts everything thus has no iterator rules (the proof that the constant-propagation
-   pass preserves typing needs that); a policy can tie the rejection to what the soundness
-   of the operators needs of the prelude closures (Sound5.policy_ok, Sound7.policy6). *)
+   pass preserves typing needs that: it does NOT preserve the rules that read the element
+   type off the static type, C01b.recreate_iterator_refuted); Sound7.policy6 rejects the key. *)
 Definition iter_gate (W0 : sty) (G : genv) (i : instr) : Prop :=
   ~ closure_ok W0 G (Some []) [] [i] (TMulti []).
 
@@ -214,12 +201,6 @@ Inductive typed (W0 : sty) : genv -> kctx -> instr -> ty -> Prop :=
     iter_gate W0 G (ITypeFilter x t) -> typed W0 G K x T -> wf_ty t = true ->
     is_iterator T = true -> of_type t = Some d -> vgood W0 d ->
     typed W0 G K (ITypeFilter x t) (it_of t)
-| T_Sum G K x T :
-    iter_gate W0 G (IUn USum x) -> typed W0 G K x T -> sum_ok T (ielem T) = true ->
-    typed W0 G K (IUn USum x) (ielem T)
-| T_Product G K x T :
-    iter_gate W0 G (IUn UProduct x) -> typed W0 G K x T -> prod_ok T (ielem T) = true ->
-    typed W0 G K (IUn UProduct x) (ielem T)
 (* it \ p (partition): the checker's test [filter_ok], and the operand is an iterator *)
 | T_Partition G K l r Tl Tr El :
     iter_gate W0 G (IBin Partition l r) -> typed W0 G K l Tl -> typed W0 G K r Tr ->
@@ -455,12 +436,6 @@ Proof.
   - (* reduce *) cbn [rt].
     repeat match goal with H : rt _ = Ok _ |- _ => rewrite H; clear H end. cbn [obind].
     match goal with H : fn_return_type _ = Some _ |- _ => rewrite H end. reflexivity.
-  - (* sum *) cbn [rt].
-    repeat match goal with H : rt _ = Ok _ |- _ => rewrite H; clear H end. cbn [obind un_rt].
-    unfold ielem. destruct (iter_element T); reflexivity.
-  - (* product *) cbn [rt].
-    repeat match goal with H : rt _ = Ok _ |- _ => rewrite H; clear H end. cbn [obind un_rt].
-    unfold ielem. destruct (iter_element T); reflexivity.
   - (* partition *) cbn [rt].
     repeat match goal with H : rt _ = Ok _ |- _ => rewrite H; clear H end. cbn [obind bin_rt].
     match goal with H : iter_element _ = Some _ |- _ => rewrite H end. reflexivity.
@@ -588,8 +563,6 @@ Proof.
   - (* collect *) cbn [wf_ty]. apply ielem_wf. auto.
   - (* reduce *) apply concat_wf; [|auto]. eapply fn_return_type_wf; [|eassumption]. auto.
   - (* type filter *) cbn [it_of wf_ty forallb]. rewrite andb_true_r. assumption.
-  - (* sum *) apply ielem_wf. auto.
-  - (* product *) apply ielem_wf. auto.
   - (* partition *)
     assert (We : wf_ty El = true).
     { match goal with H : iter_element ?T = Some El |- _ =>
